@@ -320,6 +320,13 @@ def analyse(ctx, replace=None, only=None):
             vals_ = [nw.is_const(_assignment_of(nw, e)["a"][1]) for e in sts_ if _assignment_of(nw, e)]
             domn = dominators(nw)
             okj = bool(sts_) and all(v == manual for v in vals_) and any(ev_dominates(nw, e, ln[0], domn) for e in sts_) and not [e for e in sts_ if e in RU.reach_from(nw, ln[0])]
+            # ... and the local is not overwritten as a whole between that store and the launch (typestate: every path
+            # reaches the launch with the store still in force)
+            whole = [e for e in nw.all_events() if e.kind == "access" and e.node["k"] == "var" and e.node["n"] == opt["n"] and e.mode == "w"]
+            tsj = Typestate(nw, "unset", lambda e, z: "manual" if any(e is x for x in sts_) else ("overwritten" if any(e is x for x in whole) else z))
+            okj = okj and tsj.before.get(ln[0].pos, set()) == {"manual"}
+            if tsj.before.get(ln[0].pos, set()) != {"manual"}:
+                detj += "; the options local is assigned as a whole after the store on some path"
             detj = "join_strategy stores on the local options: %s" % vals_
         R.check(okj and manual is not None, "SHUTDOWN-ORDER", "thread-launched-joinable", where(nw, ln[0]), "the scheduler thread is launched from a local copy of the options whose join_strategy is set to AWS_TJS_MANUAL",
                 "the scheduler thread is launched with the caller's join strategy (%s): with AWS_TJS_MANAGED the destroy callback's aws_thread_join does nothing, so the final release frees the scheduler while its thread is still running" % detj)
@@ -421,7 +428,7 @@ def analyse(ctx, replace=None, only=None):
     from rules import C07
     tsf = {f.name: f for f in P.functions_in("source/task_scheduler.c")}
     if R.require("aws_task_scheduler_cancel_task" in tsf, "inner scheduler's cancel_task not found"):
-        C07.cancel_rules(R, tsf)
+        C07.cancel_rules(R, tsf, P)
     # ... and the rest of the inner scheduler's contract the thread loop and the final release are built on: a task is
     # detached before it is invoked, nothing runs early, clean-up cancels until the scheduler reports no task, and that
     # report does not depend on the task's time
